@@ -16,7 +16,9 @@
 (*                           has = the module has attribute `name`, star = names bound by     *)
 (*                           CPython's own `from mod import *`, pub = all names of the module *)
 (*                           namespace not starting with "_"                                  *)
-(*                 via : "direct" | "func" | "exec" | "evalexec" | "eval" | "compiled",       *)
+(*                 via : "direct" | "func" | "exec" | "evalexec" | "eval" | "compiled" |      *)
+(*                       "funcexec" (exec called inside a function body),                     *)
+(*                 ns  : [g, l] the namespace arguments of the eval/exec call (NsForms below),*)
 (*                 ctx : "file" | "app", allow_all : BOOLEAN ]                                *)
 (* Outcome = [exc : "ok" | exception class, bound : set of names bound by the statement].     *)
 (* flags = named deviations of the code ({} = the property statement).                        *)
@@ -71,13 +73,53 @@ Run(cs, E, k, bound, flags) ==
 NativeCs(cs) == [cs EXCEPT !.allow_all = TRUE]
 NoPys(E) == [E EXCEPT !.pys = {}]
 
-Outcomes(cs, E, flags) ==
+OutcomesStrict(cs, E, flags) ==
   IF cs.via = "eval"                                   \* an import statement is not an expression
     THEN {Out("SyntaxError", {})} \cup
          (IF \E k \in 1..Len(cs.clauses) : ~Allowed(cs.clauses[k], cs.ctx, cs.allow_all, E) THEN {Out(Refusal, {})} ELSE {})
   ELSE IF cs.via = "compiled" /\ "compiled-native" \in flags
     THEN { o \in Run(NativeCs(cs), NoPys(E), 1, {}, flags) : TRUE }
   ELSE Run(cs, E, 1, {}, flags)
+
+\* ---------------------------------------------------------------------------------------------
+\* eval / exec namespace arguments: eval(text[, globals[, locals]]).
+\*   g : "-" no argument | "empty" {} | "data" a mapping with unrelated names | "globals" globals() |
+\*       "copy" dict(globals())
+\*   l : "-" no argument | "empty" | "data" | "same" (the very mapping passed as globals) | "locals" locals()
+NsNone == [g |-> "-", l |-> "-"]
+NsExplicit == { [g |-> g, l |-> l] : g \in {"empty", "data", "globals", "copy"}, l \in {"-", "empty", "data", "same", "locals"} }
+NsForms == {NsNone} \cup NsExplicit
+ModuleLevelVias == {"direct", "exec", "evalexec", "eval"}
+\* the mapping in which a statement at the top level of the executed text binds its names, by identity:
+\* "script" = the script's global table, "g" / "l" = the globals / locals mapping passed (when it is another object)
+GObj(ns) == IF ns.g = "globals" THEN "script" ELSE "g"
+LObj(via, ns) == IF ns.l \in {"-", "same"} THEN GObj(ns)
+                 ELSE IF ns.l = "locals" /\ via \in ModuleLevelVias THEN "script"   \* locals() at module level is globals()
+                 ELSE "l"
+Place(via, ns) == IF ns.g = "-" THEN "script" ELSE LObj(via, ns)
+Places == {"script", "g", "l"}
+\* eval(text, g, l) whose text calls exec(stmt) WITHOUT arguments: the inner exec runs with "default locals" that are
+\* not the global mapping.  The language leaves the effect of exec on default locals open ("modifications to the
+\* default locals dictionary should not be attempted"): the names land in the designated mapping or are not visible
+\* afterwards; everything else (refusal, exception, nothing bound by a refused clause) is demanded as usual.
+DefaultLocalsOpen(via, ns) == via = "evalexec" /\ ns.g # "-" /\ LObj(via, ns) # GObj(ns)
+
+\* ---------------------------------------------------------------------------------------------
+\* plain names that must reach the script: print / log.* are functions bound to the script's context
+\* (they write to the script's logger) wherever the text that names them is executed - directly or through
+\* eval / exec with any namespace arguments; an excluded builtin is never the builtin object.
+\*   udef  = the user's own mappings define the name (then the statement is silent about which wins)
+\*   gdecl = the enclosing function declares the name `global` (the script's globals do not define it)
+CtxBound == {"print", "log.debug", "log.info", "log.warning", "log.error"}
+Resolutions == {"replacement", "NameError", "user", "builtin"}
+NameResolves(n, udef, gdecl) ==
+  IF n \in CtxBound /\ ~udef /\ ~gdecl THEN {"replacement"}
+  ELSE IF n \in Excluded \cup CtxBound THEN {"replacement", "NameError"} \cup (IF udef THEN {"user"} ELSE {})
+  ELSE Resolutions
+
+Outcomes(cs, E, flags) ==
+  LET X == OutcomesStrict(cs, E, flags)
+  IN IF DefaultLocalsOpen(cs.via, cs.ns) THEN X \cup { Out(x.exc, {}) : x \in X } ELSE X
 
 \* identity class of the object a clause binds under a name
 ClassOf(cs, E, c) ==
